@@ -5,6 +5,7 @@ import LA.Props.C04
 import LA.Props.C05
 import LA.Props.C06
 import LA.Props.C08
+import LA.Props.C12
 import LA.Props.C17
 import LA.Props.C19
 import LA.Props.C09
